@@ -264,13 +264,22 @@ def r3_r4(p, rep):
         ikdef = [n.value for n in walk_no_nested(f.node) if isinstance(n, ast.Assign) and norm(n.targets[0]) == "iskwarg"]
         text = norm(ikdef[0]) if ikdef else ""
         is_reduce = "reduce" in f.name or norm(front[0].value.func).endswith(".reduce") or "functorchdim" in f.module.name
-        # expand one helper level: iskwarg = helper(op, ...) defined in frontend/impl/_util.py
+        # write out locals the definition refers to (`op_iskwarg = _make_iskwarg(op)`) and one level of helper
+        extra_nodes = list(ikdef)
+        if ikdef:
+            for x in ast.walk(ikdef[0]):
+                if isinstance(x, ast.Name) and x.id not in (prm, "iskwarg", "name"):
+                    ds = [a.value for a in walk_no_nested(f.node) if isinstance(a, ast.Assign) and len(a.targets) == 1 and isinstance(a.targets[0], ast.Name) and a.targets[0].id == x.id]
+                    if len(ds) == 1:
+                        text += " :: " + norm(ds[0])
+                        extra_nodes.append(ds[0])
         if ikdef and isinstance(ikdef[0], ast.Call):
             r = resolve_callee(p, ikdef[0], f.module)
             if r and r[0] == "func" and r[1].module.name.endswith("frontend.impl._util") and r[1].name != "_make_iskwarg":
                 text = text + " :: " + " ".join(norm(st) for st in r[1].node.body)
+                extra_nodes += list(r[1].node.body)
         if is_reduce:
-            consts = {c.value for d in ikdef for c in ast.walk(d) if isinstance(c, ast.Constant) and isinstance(c.value, str)}
+            consts = {c.value for d in extra_nodes for c in ast.walk(d) if isinstance(c, ast.Constant) and isinstance(c.value, str) and not (isinstance(getattr(c, '_parent', None), ast.Expr))}
             ok = consts == {"axis"} and "_make_iskwarg(" in text
             rep.add("C15.R4", f"{f.qualname}:iskwarg", site, ok and ik is not None, "reduce-style adapter reserves `axis` (supplied by einx) and forwards all other keyword-only options" if ok else f"iskwarg = {text[:70]}")
         else:
